@@ -192,7 +192,10 @@ class Renderer(object):
         if head:
             s = 'out = ' + s
         if semi:
-            s = s + self.rng.choice([';', ' ;', ';\n', '; '])
+            s = s + self.rng.choice([';', ' ;', ';\n', '; ', '; // done', ';\n/* end */\n', '; // a; b'])
+        else:
+            # an omitted final ';' with white space or a comment after the last token
+            s = s + self.rng.choice(['', '', ' ', '\n', ' // no semicolon here', ' /* c */', '\n// c\n', ' // a;'])
         return s
 
 
